@@ -408,7 +408,7 @@ def task(args):
 
 def run(run):
     K = 4 if run.tier == "quick" else 5
-    maxfull = 3
+    maxfull = 3 if run.tier == "quick" else 4
     tasks = []
     total = 0
     for k in range(1, K + 1):
